@@ -17,9 +17,17 @@ ASSUMPTIONS = [
 ]
 
 PROPS = {
+    'C07': dict(
+        units=['nnum'],
+        not_covered='vectorisation wrappers, float/complex arithmetic values, int()/rational()/float() conversion builtins',
+    ),
     'C06': dict(
-        units=['nint'],
+        units=['nint', 'nnum'],
         not_covered='lazy_is_prime / lazy_factorize / even / odd; literal parsing',
+    ),
+    'C12': dict(
+        units=['istype'],
+        not_covered='pattern matching, switch, destructuring, annotation enforcement on assignment paths, satisfying types',
     ),
     'C10': dict(
         units=['index'],
